@@ -31,6 +31,7 @@ class Sched:
         self.strat = spec.get("strat", "zero")
         self.rng = Rng(spec.get("seed", 0))
         self.consumed = []
+        self.arity = []  # number of options at each decision (for exhaustive enumeration of tapes)
         self.flip = 0
 
     def pick(self, n):
@@ -53,7 +54,18 @@ class Sched:
             else:
                 raise HarnessError(f"unknown strategy {s}")
         self.consumed.append(v)
+        self.arity.append(n)
         return v
+
+
+def next_tape(consumed, arity):
+    """Odometer step over the decision tree: the lexicographically next tape after `consumed`, or None."""
+    i = len(consumed) - 1
+    while i >= 0 and consumed[i] + 1 >= arity[i]:
+        i -= 1
+    if i < 0:
+        return None
+    return list(consumed[:i]) + [consumed[i] + 1]
 
 
 class SimRandom:
@@ -313,6 +325,8 @@ class LineSeam:
         except ValueError:
             pass
         self.mon.register_callback(self.TOOL, self.mon.events.LINE, self._on_line)
+        self.mon.register_callback(self.TOOL, self.mon.events.INSTRUCTION, self._on_instr)
+        self.granularity = "line"  # or "instr": every byte-code instruction of library code is an event
         self.n = 0
         self.budget = 1 << 62
         self.hook = None
@@ -337,11 +351,27 @@ class LineSeam:
             raise BudgetExceeded(f"{self.n} library line events")
         return None
 
+    def _on_instr(self, code, offset):
+        if not code.co_filename.startswith(self.prefix):
+            return self.mon.DISABLE
+        if not self.active:
+            return None
+        return self._on_line(code, -offset - 1)
+
+    def set_granularity(self, g):
+        if g != self.granularity:
+            was = self.enabled
+            self.disable()
+            self.granularity = g
+            if was:
+                self.enable()
+
     def enable(self):
         """Switch line events on for this process (expensive: re-instruments code objects); scenarios that
         make many budgeted calls enable once in setup() and disable in teardown()."""
         if not self.enabled:
-            self.mon.set_events(self.TOOL, self.mon.events.LINE)
+            ev = self.mon.events.LINE if self.granularity == "line" else self.mon.events.INSTRUCTION
+            self.mon.set_events(self.TOOL, ev)
             self.enabled = True
 
     def disable(self):
